@@ -119,4 +119,38 @@ example : run (envUnits [[0x6d], [0x6b, 0x6d], [0x66, 0x74]] (fun j => [0x61, j]
     quantity_inherent_Units_singular [variant [[0x6d], [0x6b, 0x6d], [0x66, 0x74]] 2] = (.val (.str [0x73, 2]), []) :=
   units_singular_eq _ _ _ _ (by decide) 2 (by decide)
 
+/-! ## `units()`: the registry is the constant `ALL_UNITS`, every element, in order
+
+    pub fn units() -> impl Iterator<Item = Units> { ALL_UNITS.iter().copied() }
+
+`iter` and `copied` are the slice / iterator adaptors of the core library: the sequence of elements, unchanged
+(trusted reading).  The theorem says that nothing is filtered, mapped or reordered between the constant and what the
+caller iterates over; the constant itself (`[$(Units::$unit($unit),)+]`, one element per declared unit) is compared
+with the table exhaustively by the registry diff of C05. -/
+
+/-- host value: the list of variants, by position -/
+def envRegistry (all : List Nat) : Env (List Nat) where
+  ext := fun c args => if c = c_ALL_UNITS then (match args with | [] => .host all | _ => .bad) else .bad
+  meth := fun m args =>
+    if m = m_iter ∨ m = m_copied then (match args with | [.host l] => .host l | _ => .bad) else .bad
+  binop := fun _ _ _ => .bad
+  field := fun _ _ => .bad
+  cast := fun _ _ => .bad
+  fmtHost := fun _ => none
+  display := fun _ => []
+  nUnits := 0
+  metaVar := fun _ _ => []
+  nBase := 0
+
+theorem all_units_not_native :
+    c_ALL_UNITS ≠ cNone ∧ c_ALL_UNITS ≠ cLess ∧ c_ALL_UNITS ≠ cEqual ∧ c_ALL_UNITS ≠ cGreater ∧
+    m_iter ≠ mNext ∧ m_copied ≠ mNext ∧ m_iter ≠ mUnwrap ∧ m_copied ≠ mUnwrap ∧ m_iter ≠ mTrim ∧ m_copied ≠ mTrim := by
+  decide
+
+/-- **`units()` yields exactly `ALL_UNITS`** -/
+theorem units_eq (all : List Nat) :
+    run (envRegistry all) quantity_free_units [] = (.val (.host all), []) := by
+  have h := all_units_not_native
+  simp [quantity_free_units, envRegistry, c_ALL_UNITS, m_iter, m_copied]
+
 end Uom.BodyEq.UnitsEnum
